@@ -28,7 +28,7 @@ theorem wp_runTask {A} {Q : Unit → St → Prop} {e : Ep} {l : List Out} (h : W
     | flush =>
       refine wp_flush hw1 ?_
       intro e' l' hw' hf
-      obtain ⟨cs, dcs, q, tx, rfl, _⟩ := hf
+      obtain ⟨cs, dcs, q, tx, _, _, _, _, rfl, _⟩ := hf
       exact hq _ _ hw' rfl rfl
     | transmit =>
       refine wp_transmit hw1 ?_
@@ -36,8 +36,8 @@ theorem wp_runTask {A} {Q : Unit → St → Prop} {e : Ep} {l : List Out} (h : W
       exact hq _ _ hw' rfl rfl
     | reconfig =>
       refine wp_transmitReconfig hw1 ?_
-      intro e' l' hw' hr hi _
-      exact hq _ _ hw' hr hi
+      intro e' l' hw' hf
+      exact hq _ _ hw' hf.rwnd hf.ins
     | resend c =>
       refine wp_sendChunk hw1 hok ?_
       intro d
